@@ -33,18 +33,49 @@ type Gen struct {
 
 // Params is the child's workload.
 type Params struct {
-	Seed         int64  `json:"seed"`
-	Dir          string `json:"dir"` // StorerConf.Dir
-	Shm          string `json:"shm"` // progress page file
-	Gens         []Gen  `json:"gens"`
-	LogSize      int64  `json:"log_size"`
-	MaxSize      int64  `json:"max_size"`
-	GcEvery      int64  `json:"gc_every"`      // log bytes between collector passes (0: none)
-	GcConcurrent bool   `json:"gc_concurrent"` // collector pass on its own goroutine (as the tool's timer) or between chunks
-	ChunkMax     int    `json:"chunk_max"`
-	PaceUs       int    `json:"pace_us"`
-	Resume       bool   `json:"resume"` // restart on an existing directory (after a SIGKILL)
-	Procs        int    `json:"procs"`
+	Seed         int64   `json:"seed"`
+	Dir          string  `json:"dir"` // StorerConf.Dir
+	Shm          string  `json:"shm"` // progress page file
+	Gens         []Gen   `json:"gens"`
+	LogSize      int64   `json:"log_size"`
+	MaxSize      int64   `json:"max_size"`
+	GcEvery      int64   `json:"gc_every"`      // log bytes between collector passes (0: none)
+	GcConcurrent bool    `json:"gc_concurrent"` // collector pass on its own goroutine (as the tool's timer) or between chunks
+	ChunkMax     int     `json:"chunk_max"`
+	PaceUs       int     `json:"pace_us"`
+	Resume       bool    `json:"resume"`           // restart on an existing directory (after a SIGKILL)
+	Faults       []Fault `json:"faults,omitempty"` // per generation: a write the file system refuses / a close at the last chunk
+	Procs        int     `json:"procs"`
+}
+
+// Fault makes the environment hostile for one generation (Kind "" = none):
+//
+//	rdb-first / rdb-mid : RLIMIT_FSIZE is lowered before the snapshot is ingested to a byte count
+//	                      inside the first chunk / anywhere inside the snapshot (A in [0,1) selects it)
+//	rdb-last            : the limit is lowered when the LAST chunk [pos,S) is about to be handed to the
+//	                      writer: pos (nothing of it fits), S-1, or inside it (A selects)
+//	close-last          : the rdb writer is Closed (shutdown / cancelled run) DelayUs after the last chunk
+//	                      was handed to its source reader; the tool then shuts down
+//	log                 : once B*Log bytes of log are handed out the limit becomes 16+A*LogSize: the current
+//	                      or next segment write is refused (possibly after a partial write)
+//
+// The child ignores SIGXFSZ, so the refused write returns EFBIG (stands for ENOSPC/EDQUOT/EIO).
+type Fault struct {
+	Kind    string  `json:"kind"`
+	A       float64 `json:"a"`
+	B       float64 `json:"b"`
+	DelayUs int     `json:"delay_us"`
+}
+
+var FaultKinds = []string{"", "rdb-first", "rdb-mid", "rdb-last", "close-last", "log"}
+
+func FaultCode(kind string) int64 {
+	for i, k := range FaultKinds {
+		if k == kind {
+			return int64(i)
+		}
+	}
+	return 0
 }
 
 // GenOf returns the generation index of a replication offset.
@@ -84,6 +115,8 @@ const (
 	PhaseLogEnd   = 5 // source closed the connection, aof writer finishing
 	PhaseReset    = 6 // new session: StartPoint, DelRunId (directory removal), SetRunId
 	PhaseDone     = 7
+	PhaseSnapFail = 8 // rdb writer ended without completing (refused write / closed): run error, back-off
+	PhaseLogFail  = 9 // aof writer ended on a refused write: run error, back-off
 )
 
 // Slots of the progress page (uint64 each).
@@ -101,6 +134,11 @@ const (
 	SlotDone        = 10
 	SlotRotations   = 11 // predicted rotations (feeder side)
 	SlotDelSeq      = 12 // incremented when a directory removal (DelRunId) is about to start
+	SlotFaultSeq    = 13 // incremented when a writer has ended after a planned fault (child then waits for the ack)
+	SlotFaultAck    = 14 // parent -> child: image of that moment taken
+	SlotFaultKind   = 15 // FaultCode of the last applied fault
+	SlotFaultLimit  = 60 // RLIMIT_FSIZE value last applied (0: none)
+	SlotFaultOk     = 61 // 1 when the writer completed although a fault was planned (limit never bit / close came late)
 	SlotGenBase     = 16 // per generation: started, rdbHanded, aofHanded(abs right edge), logDone
 	GenSlots        = 4
 	GenStarted      = 0
@@ -171,6 +209,9 @@ type ShmState struct {
 	InDel       int64             `json:"in_del"`
 	Session     int64             `json:"session"`
 	Done        int64             `json:"done"`
+	FaultSeq    int64             `json:"fault_seq"`
+	FaultKind   int64             `json:"fault_kind"`
+	FaultLimit  int64             `json:"fault_limit"`
 	Gens        [MaxGens][4]int64 `json:"gens"`
 }
 
@@ -180,6 +221,7 @@ func (s *Shm) State() ShmState {
 		HandedTotal: s.Load(SlotHandedTotal), GcPasses: s.Load(SlotGcPasses),
 		GcEffective: s.Load(SlotGcEffective), InGc: s.Load(SlotInGc), InDel: s.Load(SlotInDel),
 		Session: s.Load(SlotSession), Done: s.Load(SlotDone),
+		FaultSeq: s.Load(SlotFaultSeq), FaultKind: s.Load(SlotFaultKind), FaultLimit: s.Load(SlotFaultLimit),
 	}
 	for g := 0; g < MaxGens; g++ {
 		for f := 0; f < GenSlots; f++ {
